@@ -98,7 +98,7 @@ type xnode struct {
 }
 
 type xrender struct {
-	probe int
+	probe      int
 	sloppyOnly bool
 }
 
